@@ -38,17 +38,22 @@ Fixpoint mk_obs (na nf : nat) (prev : list (list Z)) (raw : list (Z * Z * list s
 (* an operation of a history as the implementation ran it: a plain operation, or `namespace ns; new n()` run on VM v --
    the operation it stands for (GetOrLoadClass of the full name) depends on the world it is executed in *)
 Inductive xop := XO (o : op) | XNewShort (v : vmid) (ns n : name)
-  | XCallFn (v : vmid) (n : name).   (* code run on VM v calls the function named n: a pure lookup of (KF, n) on v *)
+  | XCallFn (v : vmid) (n : name)    (* code run on VM v calls the function named n: a pure lookup of (KF, n) on v *)
+  | XObjCall (v : vmid) (n : name).  (* code run on VM v enters an object CREATED ON THE BASE (method, __invoke, __get, __call)
+                                        whose body does `new n`: the name is resolved by the object's own VM, the base *)
 Definition concrete (cp : cpath) (w : world) (x : xop) : op :=
-  match x with XO o => o | XNewShort v ns n => new_short cp w v ns n | XCallFn v _ => OReTemp 0 end.
+  match x with XO o => o | XNewShort v ns n => new_short cp w v ns n | XCallFn v _ => OReTemp 0
+          | XObjCall _ n => OGetOrLoadClass Base n end.
 Definition xstep (cp : cpath) (w : world) (x : xop) : world * result :=
   match x with
   | XCallFn v n => (w, if vm_alive w v then match lookup w v KF n with [] => RNone | l => RFound l end else RSkip)
+  | XObjCall v n => if vm_alive w v then step cp w (OGetOrLoadClass Base n) else (w, RSkip)
   | _ => step cp w (concrete cp w x)
   end.
 Definition xscope (x : xop) : option nat :=
   match x with XO o => op_scope o | XNewShort (Temp t) _ _ => Some t | XNewShort Base _ _ => None
-          | XCallFn (Temp t) _ => Some t | XCallFn Base _ => None end.
+          | XCallFn (Temp t) _ => Some t | XCallFn Base _ => None
+          | XObjCall (Temp t) _ => Some t | XObjCall Base _ => None end.
 Definition xscoped_to (t : nat) (x : xop) : bool := match xscope x with Some u => Nat.eqb u t | None => false end.
 
 Record case := {
